@@ -48,7 +48,7 @@ class OggOpusInfo(StreamInfo):
 
     def __init__(self, fileobj):
         page = OggPage(fileobj)
-        while not page.packets[0].startswith(b"OpusHead"):
+        while not (page.packets and page.packets[0].startswith(b"OpusHead")):
             page = OggPage(fileobj)
 
         self.serial = page.serial
@@ -83,7 +83,7 @@ class OggOpusVComment(VCommentDict):
     def __get_comment_pages(self, fileobj, info):
         # find the first tags page with the right serial
         page = OggPage(fileobj)
-        while ((info.serial != page.serial) or
+        while ((info.serial != page.serial) or not page.packets or
                 not page.packets[0].startswith(b"OpusTags")):
             page = OggPage(fileobj)
 
